@@ -147,7 +147,23 @@ def check_legacy(case: dict):
 
 def check_legacy_sequence(case: dict):
     """vocabularies must not depend on which other tokenizers were built before in the same process"""
-    for mode, n in case["seq"]:
+    for k, (mode, n) in enumerate(case["seq"]):
+        if case.get("touch") and k == case["touch"] % len(case["seq"]):
+            # other public helpers of the vocabulary containers are used in between (they must not change what the containers hold)
+            from maze_dataset.constants import SPECIAL_TOKENS, VOCAB
+
+            for cont in (SPECIAL_TOKENS, VOCAB):
+                n0 = len(cont)
+                for nm in ("get_abbrev",):
+                    fn = getattr(cont, nm, None)
+                    if fn is not None:
+                        try:
+                            fn(SPECIAL_TOKENS.PATH_START)
+                        except Exception:  # noqa: BLE001 - the helper's own contract is not under test
+                            pass
+                list(cont.keys()), list(cont.values())
+                require(len(cont) == n0 and all(isinstance(v, str) for v in cont.values()), "C14:container-changed-by-use",
+                        f"{type(cont).__name__} holds {len(cont)} entries (was {n0}) / non-token values after its helpers were used")
         check_legacy({"mode": mode, "n": n})
     if case.get("resize"):
         # one tokenizer object re-used for another grid size: the size is reassigned and the cached views are cleared (what clear_cache
@@ -346,7 +362,7 @@ def subs(tier: str):
         Sub("corner-first-beyond-50", check_prefix_large, "exhaustive", cases=_prefix_large_cases([51, 64, 73, 74, 75, 90, 100, 127, 128, 129, 150, 181, 182, 200, 256] if q else list(range(51, 301)))),
         Sub("legacy-construction-order", check_legacy_sequence, "hypothesis",
             strategy=lambda: st.fixed_dictionaries({"seq": st.lists(st.tuples(st.sampled_from(MODES), st.integers(1, 50)).map(list), min_size=2, max_size=6),
-                                                    "resize": st.lists(st.integers(1, 30), max_size=3)}),
+                                                    "resize": st.lists(st.integers(1, 30), max_size=3), "touch": st.sampled_from([None, 0, 1, 2])}),
             examples=40 if q else 3000),
         Sub("sequences", check_seq, "hypothesis", strategy=_seq, examples=120 if q else 15000),
         Sub("unknown", check_unknown, "hypothesis", strategy=_unknown, examples=80 if q else 8000),
